@@ -157,9 +157,47 @@ def _job(job, emit):
                 break
         emit("rec", {"prog": prog, "session": sidx, "trace": trace, "meta": meta,
                      "texts": [str(p) for p in procs[:1]]})
+    # systematic sweep: every candidate of the grid applied once to the source procedure itself
+    if job.get("sweep"):
+        emit("begin", "sweep")
+        rng = random.Random(f"purity-sweep/{job['seed']}/{prog}")
+        cands = enumerate_candidates(p0, ctx, rich=True)
+        if len(cands) > job["sweep"]:
+            # keep every operation kind, sample within kinds
+            by = {}
+            for c in cands:
+                by.setdefault(c.op, []).append(c)
+            per = max(2, job["sweep"] // max(1, len(by)))
+            cands = []
+            for op, cs in sorted(by.items()):
+                rng.shuffle(cs)
+                cands += cs[:per]
+        procs = [p0]
+        cursors = [s for s, d, path in walk_stmts(p0.body())][:6]
+        fp0 = [proc_fp(p0, True)]
+        cf0 = [cursor_fp(c) for c in cursors]
+        trace = {"init": {"fps": fp0, "cfps": cf0}, "events": []}
+        meta = []
+        for c in cands:
+            ok, exc = False, ""
+            signal.alarm(40)
+            try:
+                q = c.fn()
+                signal.alarm(0)
+                ok = q is not None
+            except _Timeout:
+                exc = "Timeout"
+            except BaseException as e:
+                signal.alarm(0)
+                exc = type(e).__name__
+            # only the source procedure is tracked here (handles of results are not kept alive)
+            trace["events"].append({"op": c.op, "ok": False, "fps": [proc_fp(p0, True)],
+                                    "cfps": [cursor_fp(x) for x in cursors]})
+            meta.append({"op": c.op, "args": c.args, "ok": ok, "exc": exc, "on": 1})
+        emit("rec", {"prog": prog, "session": "sweep", "trace": trace, "meta": meta, "texts": [str(p0)]})
 
 
-def run(modules, seed, sessions, length, maxprocs=14, select=None):
+def run(modules, seed, sessions, length, maxprocs=14, select=None, sweep=0):
     from .pool import stream_pool
     from .common import MachineryError
     jobs = []
@@ -169,9 +207,9 @@ def run(modules, seed, sessions, length, maxprocs=14, select=None):
             if select is not None and not select(m, p):
                 continue
             jobs.append({"module": m, "index": idx, "seed": seed, "sessions": sessions, "length": length,
-                         "maxprocs": maxprocs})
+                         "maxprocs": maxprocs, "sweep": sweep})
     recs, crashes, hangs = stream_pool(jobs, _job, NCPU, silence=300)
     if crashes:
         raise MachineryError("purity worker crashed:\n" + crashes[0][1])
-    recs.sort(key=lambda r: (r["prog"], r["session"]))
+    recs.sort(key=lambda r: (r["prog"], str(r["session"])))
     return recs
